@@ -81,3 +81,50 @@ package mapping
 //@   opaque Deref, fillSliceValue, Unmarshal
 //@   ensures [field-gets-a-fresh-slice] calls(value.Set) == calls(value.Set, ret(reflect.MakeSlice)) && (calls(value.Set) >= 1 ==> calls(reflect.MakeSlice) == 1)
 //@   ensures [not-settable] !ret(CanSet) ==> result == errValueNotSettable && calls(Set) == 0
+
+// ---------------- field dispatch: what may be stored, and only after which checks (C05) ----------------
+// A field present with a nil value: optional => left untouched, otherwise an error. In from-string mode (form /
+// path / header sources) a non-string value or a value outside options= is an error and nothing is stored.
+//@ func (*Unmarshaler).processNamedFieldWithValue
+//@   prop C05
+//@   opaque optional, fromString, options, maybeNewValue, processFieldTextUnmarshaler, processFieldNotFromString, fillPrimitive, Deref, Errorf, Contains
+//@   requires u != nil && opts != nil
+//@   ensures [nil-optional-untouched] vp.value == nil && ret(optional) ==> result == nil && calls(fillPrimitive) == 0 && calls(processFieldNotFromString) == 0 && calls(maybeNewValue) == 0
+//@   ensures [nil-never-silently-accepted-when-required] vp.value == nil && result == nil ==> calls(optional) == 1 && ret(optional)
+//@   ensures [nil-required-is-error] vp.value == nil && !ret(optional) ==> result != nil && result == ret(fmt.Errorf) && calls(fillPrimitive) == 0 && calls(processFieldNotFromString) == 0
+//@   ensures [unsettable-is-error] vp.value != nil && !ret(CanSet) ==> result != nil && calls(fillPrimitive) == 0 && calls(processFieldNotFromString) == 0
+//@   ensures [text-unmarshaler-decides] vp.value != nil && ret(CanSet) && ret(processFieldTextUnmarshaler, 0) ==> result == ret(processFieldTextUnmarshaler, 1) && calls(fillPrimitive) == 0 && calls(processFieldNotFromString) == 0
+//@   ensures [option-checked-before-store] calls(fillPrimitive) == 1 ==> (len(ret(options)) > 0 ==> calls(stringx.Contains) == 1 && ret(stringx.Contains) && before(stringx.Contains, fillPrimitive)) && result == ret(fillPrimitive) && arg(fillPrimitive, 2) == vp.value
+//@   ensures [outside-options-is-error] calls(stringx.Contains) == 1 && !ret(stringx.Contains) ==> result != nil && calls(fillPrimitive) == 0
+//@   ensures [one-path] calls(fillPrimitive) + calls(processFieldNotFromString) <= 1
+// processFieldPrimitive: a value whose kind differs from the field's (and is not a JSON number for it) is a type
+// mismatch error - it is never converted silently; a same-kind value is checked against options= before storing.
+//@ func (*Unmarshaler).processFieldPrimitive
+//@   prop C05
+//@   opaque Deref, fillSlice, fillMap, processFieldPrimitiveWithJSONNumber, validateValueInOptions, fillWithSameType, options, newTypeMismatchError
+//@   requires u != nil && opts != nil
+//@   let typeKind = ret(Kind, 0, 1)
+//@   let valueKind = ret(Kind, 0, 2)
+//@   let structural = typeKind == 23 && valueKind == 23 || typeKind == 21 && valueKind == 21
+//@   ensures [json-number-path] !structural && typeis(mapValue, json.Number) ==> calls(u.processFieldPrimitiveWithJSONNumber) == 1 && result == ret(processFieldPrimitiveWithJSONNumber) && calls(fillWithSameType) == 0
+//@   ensures [same-kind-checked-then-stored] !structural && !typeis(mapValue, json.Number) && typeKind == valueKind && ret(validateValueInOptions) == nil ==> calls(fillWithSameType) == 1 && arg(fillWithSameType, 2) == mapValue && result == ret(fillWithSameType) && before(validateValueInOptions, fillWithSameType)
+//@   ensures [never-stored-without-the-options-check] calls(fillWithSameType) >= 1 ==> calls(validateValueInOptions, mapValue, ret(options)) == 1 && ret(validateValueInOptions) == nil && before(validateValueInOptions, fillWithSameType)
+//@   ensures [outside-options-not-stored] !structural && !typeis(mapValue, json.Number) && typeKind == valueKind && ret(validateValueInOptions) != nil ==> result == ret(validateValueInOptions) && calls(fillWithSameType) == 0
+//@   ensures [kind-mismatch-is-error] !structural && !typeis(mapValue, json.Number) && typeKind != valueKind ==> result == ret(newTypeMismatchError) && calls(fillWithSameType) == 0 && calls(validateValueInOptions) == 0
+// fillPrimitive (from-string sources): a string goes through validateAndSetValue, a JSON number is range-checked
+// first, anything else is a type mismatch.
+//@ func fillPrimitive
+//@   prop C05
+//@   opaque Deref, validateAndSetValue, validateJsonNumberRange, setValue, newTypeMismatchError
+//@   ensures [unsettable] !ret(CanSet) ==> result == errValueNotSettable && calls(validateAndSetValue) == 0 && calls(setValue) == 0
+//@   ensures [string-validated-and-set] ret(CanSet) && typeis(mapValue, string) ==> calls(validateAndSetValue) == 1 && arg(validateAndSetValue, 2) == unbox(mapValue, string) && arg(validateAndSetValue, 3) == opts && result == ret(validateAndSetValue)
+//@   ensures [number-range-checked-before-set] ret(CanSet) && typeis(mapValue, json.Number) ==> calls(validateJsonNumberRange) == 1 && (ret(validateJsonNumberRange) != nil ==> result == ret(validateJsonNumberRange) && calls(setValue) == 0) && (ret(validateJsonNumberRange) == nil ==> calls(setValue) == 1 && result == ret(setValue) && before(validateJsonNumberRange, setValue))
+//@   ensures [other-is-mismatch] ret(CanSet) && !typeis(mapValue, string) && !typeis(mapValue, json.Number) ==> result == ret(newTypeMismatchError) && calls(setValue) == 0 && calls(validateAndSetValue) == 0
+// fillWithSameType: range= is checked before anything is stored.
+//@ func fillWithSameType
+//@   prop C05
+//@   opaque Deref, validateValueRange, setSameKindValue
+//@   ensures [unsettable] !ret(CanSet) ==> result == errValueNotSettable && calls(setSameKindValue) == 0
+//@   ensures [out-of-range-not-stored] ret(CanSet) && ret(validateValueRange) != nil ==> result == ret(validateValueRange) && calls(setSameKindValue) == 0 && calls(Set) == 0
+//@   ensures [never-stored-without-the-range-check] calls(setSameKindValue) >= 1 ==> calls(validateValueRange, mapValue, opts) == 1 && ret(validateValueRange) == nil && before(validateValueRange, setSameKindValue)
+//@   ensures [in-range-stored-once] ret(CanSet) && ret(validateValueRange) == nil ==> result == nil && calls(setSameKindValue) == 1 && arg(setSameKindValue, 2) == mapValue && before(validateValueRange, setSameKindValue)
